@@ -8,7 +8,8 @@ EXTENDS LCDSearchSM, Json, CSV, IOUtils
 CONSTANTS Kernels,       \* set of kernel ids <<family, K>>
           NWs,           \* set of worker counts; 0 means K + 1
           Timeouts,      \* subset of BOOLEAN: TRUE = finite timeout, FALSE = timeout -1
-          TickEnabled    \* BOOLEAN: may the deadline pass?
+          TickEnabled,   \* BOOLEAN: may the deadline pass?
+          ReduceIdle     \* BOOLEAN: hand-made symmetry reduction for workers with an empty slice (below)
 
 U == 12000
 LatOf(i) == <<1, 3, 5>>[(i % 3) + 1] * U
@@ -26,25 +27,32 @@ Kern(fam, n) ==
                                     ELSE IF i % 3 = 1 THEN {i, Pred(n, i, 1)} ELSE {Pred(n, i, 1), Pred(n, i, 3)}
                [] fam = "none"   -> {} ]]                                 \* no dependency at all: every append is empty
 
-MC_KTab == TLCEval([id \in Kernels |-> Build(Kern(id[1], id[2]))])
+MC_KTab == [id \in Kernels |-> Build(Kern(id[1], id[2]))]
 
+D4     == { <<"dense", 4>> }
 K4     == { <<"chain", 4>>, <<"dense", 4>>, <<"mixed", 4>> }
 K3     == { <<"dense", 3>>, <<"mixed", 3>> }
 K2     == { <<"dense", 2>> }
 K6     == { <<"chain", 6>>, <<"accs", 6>>, <<"dense", 6>>, <<"mixed", 6>> }
 K8     == { <<"dense", 8>>, <<"mixed", 8>> }
 K1     == { <<"accs", 1>>, <<"none", 1>> }
+KR2    == { <<"dense", 3>>, <<"mixed", 4>>, <<"none", 1>> }   \* graphs dumped for the replay (R2)
+KTiny  == K3 \cup K1 \cup D4
 KSmall == K4 \cup K1 \cup { <<"mixed", 5>> }
 KMany  == K6 \cup K8 \cup KSmall \cup { <<"none", 3>>, <<"dense", 7>> }
 
 NWOf(id) == { n \in NWs : n > 0 } \cup (IF 0 \in NWs THEN { id[2] + 1 } ELSE {})
 
 Init == \E id \in Kernels : \E nw \in NWOf(id) : \E to \in Timeouts :
-           InitWith([kid |-> id, nw |-> nw, to |-> to])
+           InitWith([kid |-> id, n |-> id[2], nw |-> nw, to |-> to])
+
+\* Workers with an empty slice (NW > K) only exit; they are interchangeable and no property
+\* mentions their identity, so with ReduceIdle they exit in index order (2^m subsets -> m + 1).
+IdleOrderOk(w) == ReduceIdle /\ Len(Sl(w)) = 0 => \A v \in 0..(w - 1) : Len(Sl(v)) = 0 => wst[v] # "run"
 
 Next ==
   \/ StartAll
-  \/ \E w \in W : WStep(w)
+  \/ \E w \in W : IdleOrderOk(w) /\ WStep(w)
   \/ (TickEnabled /\ Tick)
   \/ Check \/ Sleep \/ Kill \/ JoinAll \/ Copy \/ PostProcess
   \/ Terminated
@@ -60,7 +68,7 @@ EmitTable ==
                                 np  |-> MC_KTab[id].np,
                                 cyc |-> [r \in 1..id[2] |-> MC_KTab[id].cyc[r]],
                                 full |-> FullResult(MC_KTab[id])])>>, IOEnv.OUTFILE)
-AllPars == { [kid |-> id, nw |-> nw, to |-> to] : id \in Kernels, nw \in 0..64, to \in Timeouts }
+AllPars == { [kid |-> id, n |-> id[2], nw |-> nw, to |-> to] : id \in Kernels, nw \in 0..64, to \in Timeouts }
 FirstPar == CHOOSE p \in { q \in AllPars : q.nw \in NWOf(q.kid) } : TRUE
 EmitOnce == (cpc = "start" /\ par = FirstPar) => EmitTable
 =============================================================================
